@@ -11,6 +11,7 @@ mod gen;
 mod horn;
 mod progen;
 mod solver;
+mod suite;
 mod ops;
 mod rng;
 mod wire;
@@ -25,6 +26,9 @@ pub struct Ctx {
     pub seed: u64,
     pub replay: Option<String>,
     pub corpus_dir: String,
+    /// (index, count) when this process is one shard of a sharded run
+    pub shard: Option<(usize, usize)>,
+    pub outdir: String,
 }
 
 impl Ctx {
@@ -43,6 +47,27 @@ impl Ctx {
         } else {
             quick
         }
+    }
+    /// does case `i` belong to this shard? (sharding never changes what is generated for case i)
+    pub fn mine(&self, i: usize) -> bool {
+        match self.shard {
+            Some((k, n)) => i % n == k,
+            None => true,
+        }
+    }
+    /// record the case about to run, so that the parent can name it if this process dies
+    /// Returns false when the case crashed the process in an earlier attempt of this shard and
+    /// must be skipped (it has been reported by the parent).
+    pub fn inflight(&self, label: &str) -> bool {
+        if self.shard.is_some() {
+            if let Ok(s) = std::fs::read_to_string(format!("{}/crashed.txt", self.outdir)) {
+                if s.lines().any(|l| l == label) {
+                    return false;
+                }
+            }
+            let _ = std::fs::write(format!("{}/inflight.txt", self.outdir), label);
+        }
+        true
     }
     pub fn rng(&self, stream: u64, index: u64) -> rng::Rng {
         rng::Rng::for_case(self.seed, &self.prop, stream, index)
@@ -91,6 +116,9 @@ pub struct Out {
     pub notes: Vec<String>,
     /// property-level evaluations done purely on the Rust side (no model line)
     pub evaluations_extra: u64,
+    /// pre-rendered JSON fragments merged from shards
+    pub raw_failures: Vec<String>,
+    pub raw_notes: Vec<String>,
 }
 
 impl Out {
@@ -127,6 +155,165 @@ pub fn json_str(s: &str) -> String {
     }
     o.push('"');
     o
+}
+
+fn run_sharded(prop: &str, tier: &str, seed: u64, outdir: &str, corpus: &str) {
+    let n: usize = std::env::var("VERIF_SHARDS").ok().and_then(|s| s.parse().ok()).unwrap_or(12);
+    let timeout = std::time::Duration::from_secs(std::env::var("VERIF_SHARD_TIMEOUT").ok().and_then(|s| s.parse().ok()).unwrap_or(900));
+    std::fs::create_dir_all(outdir).unwrap();
+    let exe = std::env::current_exe().unwrap();
+    let spawn = |i: usize, dir: &str| {
+        std::process::Command::new(&exe)
+            .args([prop, "--tier", tier, "--seed", &seed.to_string(), "--out", dir, "--corpus", corpus])
+            .env("VERIF_SHARD", i.to_string())
+            .env("VERIF_SHARD_COUNT", n.to_string())
+            .stdout(std::process::Stdio::null())
+            .stderr(std::process::Stdio::null())
+            .spawn()
+            .expect("spawn shard")
+    };
+    let mut children = vec![];
+    for i in 0..n {
+        let dir = format!("{}/shard_{}", outdir, i);
+        std::fs::create_dir_all(&dir).unwrap();
+        let child = spawn(i, &dir);
+        children.push((i, dir, child, 0usize));
+    }
+    let start = std::time::Instant::now();
+    let mut out = Out::default();
+    let mut rq = String::new();
+    let mut ex = String::new();
+    let mut me = String::new();
+    while let Some((i, dir, mut child, attempts)) = children.pop() {
+        let status = loop {
+            match child.try_wait().unwrap() {
+                Some(st) => break Some(st),
+                None => {
+                    if start.elapsed() > timeout {
+                        let _ = child.kill();
+                        let _ = child.wait();
+                        break None;
+                    }
+                    std::thread::sleep(std::time::Duration::from_millis(50));
+                }
+            }
+        };
+        let inflight = std::fs::read_to_string(format!("{}/inflight.txt", dir)).unwrap_or_default();
+        match status {
+            Some(st) if st.success() => {
+                rq.push_str(&std::fs::read_to_string(format!("{}/requests.txt", dir)).unwrap_or_default());
+                ex.push_str(&std::fs::read_to_string(format!("{}/expected.txt", dir)).unwrap_or_default());
+                me.push_str(&std::fs::read_to_string(format!("{}/meta.txt", dir)).unwrap_or_default());
+                if let Ok(st) = std::fs::read_to_string(format!("{}/stats.json", dir)) {
+                    merge_stats(&st, &mut out);
+                }
+            }
+            Some(st) => {
+                out.fail(
+                    &format!("the harness process died ({}) while running the real code on this case", st),
+                    &inflight,
+                    "process_abnormal_exit",
+                );
+                // run the shard again without the crashing case
+                if attempts < 8 && !inflight.is_empty() {
+                    use std::io::Write;
+                    let mut f = std::fs::OpenOptions::new().create(true).append(true).open(format!("{}/crashed.txt", dir)).unwrap();
+                    writeln!(f, "{}", inflight).unwrap();
+                    let _ = std::fs::remove_file(format!("{}/inflight.txt", dir));
+                    let c = spawn(i, &dir);
+                    children.push((i, dir, c, attempts + 1));
+                }
+            }
+            None => out.fail(&format!("shard {} did not finish within {:?}", i, timeout), &inflight, "process_timeout"),
+        }
+    }
+    std::fs::write(format!("{}/requests.txt", outdir), rq).unwrap();
+    std::fs::write(format!("{}/expected.txt", outdir), ex).unwrap();
+    std::fs::write(format!("{}/meta.txt", outdir), me).unwrap();
+    write_stats(prop, rq_lines(outdir), &out, outdir);
+}
+
+fn rq_lines(outdir: &str) -> usize {
+    std::fs::read_to_string(format!("{}/requests.txt", outdir)).map(|s| s.lines().count()).unwrap_or(0)
+}
+
+/// minimal reader of the stats.json this program writes (counters, notes, oracle failures)
+fn merge_stats(text: &str, out: &mut Out) {
+    // counters
+    if let Some(start) = text.find("\"counters\": {") {
+        let rest = &text[start + 13..];
+        if let Some(end) = rest.find('}') {
+            for kv in rest[..end].split(", ") {
+                if let Some((k, v)) = kv.rsplit_once(": ") {
+                    let k = k.trim().trim_matches('"');
+                    if let Ok(n) = v.trim().parse::<u64>() {
+                        out.count_n(k, n);
+                    }
+                }
+            }
+        }
+    }
+    if let Some(start) = text.find("\"evaluations_extra\": ") {
+        let rest = &text[start + 21..];
+        let end = rest.find(',').unwrap_or(0);
+        out.evaluations_extra += rest[..end].trim().parse::<u64>().unwrap_or(0);
+    }
+    // failures and notes are carried over verbatim as pre-rendered JSON
+    if let Some(start) = text.find("\"oracle_failures\": [") {
+        let body = &text[start + 20..];
+        if let Some(end) = body.rfind(']') {
+            let inner = body[..end].trim();
+            if !inner.is_empty() {
+                out.raw_failures.push(inner.to_string());
+            }
+        }
+    }
+    if let Some(start) = text.find("\"notes\": [") {
+        let body = &text[start + 10..];
+        if let Some(end) = body.find("],\n") {
+            let inner = body[..end].trim();
+            if !inner.is_empty() {
+                out.raw_notes.push(inner.to_string());
+            }
+        }
+    }
+}
+
+fn write_stats(prop: &str, ncases: usize, out: &Out, outdir: &str) {
+    let mut st = String::from("{\n");
+    st.push_str(&format!("  \"property\": {},\n", json_str(prop)));
+    st.push_str(&format!("  \"cases\": {},\n", ncases));
+    st.push_str(&format!("  \"evaluations_extra\": {},\n", out.evaluations_extra));
+    st.push_str("  \"counters\": {");
+    let mut first = true;
+    for (k, v) in &out.counters {
+        if !first {
+            st.push_str(", ");
+        }
+        first = false;
+        st.push_str(&format!("{}: {}", json_str(k), v));
+    }
+    st.push_str("},\n  \"notes\": [");
+    let mut notes: Vec<String> = out.notes.iter().take(50).map(|n| json_str(n)).collect();
+    notes.extend(out.raw_notes.iter().cloned());
+    st.push_str(&notes.join(", "));
+    st.push_str("],\n  \"oracle_failures\": [");
+    let mut fs: Vec<String> = out
+        .oracle_failures
+        .iter()
+        .map(|f| {
+            format!(
+                "{{\"what\": {}, \"input\": {}, \"classifier\": {}}}",
+                json_str(&f.what),
+                json_str(&f.input),
+                json_str(&f.classifier)
+            )
+        })
+        .collect();
+    fs.extend(out.raw_failures.iter().cloned());
+    st.push_str(&fs.join(",\n    "));
+    st.push_str("]\n}\n");
+    std::fs::write(format!("{}/stats.json", outdir), st).unwrap();
 }
 
 fn main() {
@@ -174,7 +361,17 @@ fn main() {
     if std::env::var("VERIF_DEBUG").is_err() {
         std::panic::set_hook(Box::new(|_| {}));
     }
-    let ctx = Ctx { prop: prop.clone(), tier, seed, replay, corpus_dir };
+    let shard = match (std::env::var("VERIF_SHARD"), std::env::var("VERIF_SHARD_COUNT")) {
+        (Ok(i), Ok(n)) => Some((i.parse().unwrap(), n.parse().unwrap())),
+        _ => None,
+    };
+    // properties whose cases run the real solvers are sharded over child processes: a solver that
+    // aborts the process (native stack overflow) or runs away is then reported for the case in flight
+    if shard.is_none() && replay.is_none() && ops::sharded(&prop) {
+        run_sharded(&prop, &tier, seed, &outdir, &corpus_dir);
+        return;
+    }
+    let ctx = Ctx { prop: prop.clone(), tier, seed, replay, corpus_dir, shard, outdir: outdir.clone() };
     let mut out = Out::default();
     if !ops::run(&ctx, &mut out) {
         eprintln!("unknown property {}", prop);
@@ -189,35 +386,5 @@ fn main() {
         writeln!(ex, "{}", c.expected).unwrap();
         writeln!(me, "{}\t{}", if c.nontrivial { 1 } else { 0 }, c.tags).unwrap();
     }
-    let mut st = String::from("{\n");
-    st.push_str(&format!("  \"property\": {},\n", json_str(&prop)));
-    st.push_str(&format!("  \"cases\": {},\n", out.cases.len()));
-    st.push_str(&format!("  \"evaluations_extra\": {},\n", out.evaluations_extra));
-    st.push_str("  \"counters\": {");
-    let mut first = true;
-    for (k, v) in &out.counters {
-        if !first {
-            st.push_str(", ");
-        }
-        first = false;
-        st.push_str(&format!("{}: {}", json_str(k), v));
-    }
-    st.push_str("},\n  \"notes\": [");
-    st.push_str(&out.notes.iter().map(|n| json_str(n)).collect::<Vec<_>>().join(", "));
-    st.push_str("],\n  \"oracle_failures\": [");
-    let fs: Vec<String> = out
-        .oracle_failures
-        .iter()
-        .map(|f| {
-            format!(
-                "{{\"what\": {}, \"input\": {}, \"classifier\": {}}}",
-                json_str(&f.what),
-                json_str(&f.input),
-                json_str(&f.classifier)
-            )
-        })
-        .collect();
-    st.push_str(&fs.join(",\n    "));
-    st.push_str("]\n}\n");
-    std::fs::write(format!("{}/stats.json", outdir), st).unwrap();
+    write_stats(&prop, out.cases.len(), &out, &outdir);
 }
